@@ -195,6 +195,8 @@ CHECKS = {
                  {"name": "VerifC11Cursors", "quick": {"steps": 4}, "thorough": {"steps": 5}, "replay": "interpreted", "max-paths": 3000000,
                   "covers": ["done", "set", "fetch", "purge", "clean", "pause-resume", "restart", "cleaner-tick"],
                   "targets": ["cursorManager).SetCursor", "cursorManager).GetCursor", "cursorManager).getLatestCursorOffset", "apiServer).SubscribeInternal", "ReverseReader).ReadMessage"]},
+                 {"name": "VerifC11Concurrent", "quick": {"preemptions": 1}, "thorough": {"preemptions": 2}, "replay": "interpreted", "max-paths": 3000000,
+                  "covers": ["done"], "targets": ["cursorManager).SetCursor", "cursorManager).GetCursor", "cursorManager).getLatestCursorOffset"]},
              ]},
         ],
     },
@@ -330,7 +332,7 @@ META = {
     "C18": {"text": "Bounded model checking of the implementation by the symbolic executor: a Raft log of event-kind operations, non-event operations and non-command entries is committed step by step while the real dispatcher goroutine runs; publishes and marker applies fail by choice (bounded), leadership is lost and regained, the manager restarts from the recovered marker; back-off timers are virtual. The recorded publish sequence is checked for at-least-once, id = Raft index, commit order of first appearances and head-of-line blocking.",
             "design_ref": "DESIGN.md §4 C18", "note": "bounds: 2-3 operations, 4-5 steps (commit with drain / run-until-blocked / burst, failover, restart, restart from a snapshot with or without log compaction up to the last published entry), 1-2 publish failures, 1 marker failure; concrete-shaped data (exhaustive enumeration of decision vectors); replay by concrete re-execution", "technique": TECH},
     "C11": {"text": "Bounded model checking of the implementation by the symbolic executor: every sequence of k operations from {SetCursor, FetchCursor (2 cursor ids), cache purge / become leader, compaction of the cursors log, pause+resume (log closed and reopened), restart (fresh cache), a cleaner interval passing (the log's own cleaner loop rolls an aged active segment, then compacts)} on the real cursor manager + reverse subscription + commit log; every fetch is compared with a map model.",
-            "design_ref": "DESIGN.md §4 C11", "note": "bounds: k = 4 (quick) / 5 (thorough), 2 cursor ids, offsets from {0,5,300}; data is concrete-shaped here (the solver decides nothing of substance; the quantifier is covered by exhaustive enumeration of decision vectors); real leader change over NATS outside", "technique": TECH},
+            "design_ref": "DESIGN.md §4 C11", "note": "bounds: k = 4 (quick) / 5 (thorough) sequential operations, 2 cursor ids, offsets from {0,5,300}; one cache-missing FetchCursor racing one SetCursor on the same cursor under the exploring scheduler (pre-emption bound 1 / 2); data is concrete-shaped here (the solver decides nothing of substance; the quantifier is covered by exhaustive enumeration of decision vectors); real leader change over NATS outside", "technique": TECH},
     "C07": {"text": "Bounded model checking of the implementation by the symbolic executor: on a controller with a 3-replica partition, every sequence of k events from {leader report, ISR shrink, ISR expand (each by any of 4 ids incl. a non-replica, naming the current or a stale leader/epoch; stale epochs are arbitrary 64-bit values decided by the solver), report-window expiry, controller leadership loss} runs through the real ReportLeader/ShrinkISR/ExpandISR/failover/FSM code; after every event the leadership invariants are asserted against a witness model.",
             "design_ref": "DESIGN.md §4 C07", "note": "bounds: k = 3 (quick) / 4 (thorough) events, one partition with 3 replicas, sequential requests; replay by concrete re-execution (Raft stand-in)", "technique": TECH},
     "C15": {"text": "Symbolic execution of all 16 client API methods of the current source with ACLs on: the policy's answer for the call is a symbolic boolean, back ends are effect recorders, the partition and the consumer group's current subscription are real. On the 'no' side the call must return an error, the effect log must be empty and the existing subscription must still be the active one. The list of methods is fixed in the harness (a new RPC needs a new case).",
